@@ -3,6 +3,7 @@ CONSTANTS
   N = 5
   LimR = 1
   LimD = 2
+  TB = 0
   MoveOnLast = TRUE
 VIEW View
 INVARIANT Refines
